@@ -82,10 +82,11 @@ def oracle_C08(rs, n, ctx):
         vs = np.array([tt(p) for p in pts])
         if not np.array_equal(vl, vs, equal_nan=True):
             R.violate("C08:call", "list point evaluation differs from single evaluations", rep)
-        gl = E(pts)
-        gs = np.array([E(p) for p in pts])
-        if not np.array_equal(gl, gs, equal_nan=True):
-            R.violate("C08:call", "list model evaluation differs from single evaluations", rep)
+        if min(cells) >= 2:   # (a model with a single sample along an axis is outside C14's domain: finding F13)
+            gl = E(pts)
+            gs = np.array([E(p) for p in pts])
+            if not np.array_equal(gl, gs, equal_nan=True):
+                R.violate("C08:call", "list model evaluation differs from single evaluations", rep)
         inside = [p for p in pts if all(ax[0] <= p[a] <= ax[-1] for a, ax in enumerate(axes))][:max(2, min(L + 1, 6))]
         if len(inside) >= 2:
             inside = np.array(inside)
@@ -345,7 +346,12 @@ def ray_oracle(rs, n, ctx, honor):
                 # smooth media, ordinary cells: allow half a step of interpolation wobble
                 tolm = 1e-9 * max(np.abs(tv).max(), 1e-300) + 0.5 * step * float((1 / v).max())
                 if (dec < -tolm).any():
-                    R.violate("C10:monotone", f"interpolated traveltime decreases by {-dec.min():.3e} along the ray", rep)
+                    kk = int(np.argmin(dec))
+                    near_src = max(np.linalg.norm(ray[kk] - src), np.linalg.norm(ray[kk + 1] - src)) <= 2.0 * max(d)
+                    # known finding F12 (same mechanism): with a step shorter than half a cell the ray wanders inside the
+                    # cells around the source, where the interpolated gradient is unreliable
+                    key = "C10:monotone-small-step-near-source" if (step < 0.5 * min(d) and near_src) else "C10:monotone"
+                    R.violate(key, f"interpolated traveltime decreases by {-dec.min():.3e} along the ray (vertex {kk})", rep)
     return R
 
 
